@@ -88,7 +88,10 @@ def main(argv=None):
                 f = getattr(m, nm, None)
                 if f is not None:
                     env.stub(f, impl)
-    contracts = [c for c in api.CONTRACTS if c.prop == prop and (not args.only or args.only in c.target)]
+    contracts = [c for c in api.CONTRACTS if c.prop == prop and (not args.only or args.only in c.target) and not getattr(c, "assumed", False)]
+    for c in api.CONTRACTS:
+        if c.prop == prop and getattr(c, "assumed", False):
+            env.assumptions_used.add(f"assumed contract at call sites (not verified here): {c.target} - {(c.__doc__ or '').strip().splitlines()[0] if c.__doc__ else ''}")
     for c in api.CONTRACTS:
         if getattr(c, "modular", False):
             from pyvc.verify import resolve_target
